@@ -416,6 +416,24 @@ pub fn scenarios(quick: bool) -> Vec<Scenario> {
         Cfg { s_max_concurrent: Some(1), c_initial_max_send_streams: Some(1), ..Cfg::default() },
         vec![StreamSpec::new(m(&[3]), m(&[3])), StreamSpec::new(m(&[4]), m(&[4]))],
     ));
+    // 15./16. one stream is reset (by either application) while another stream's large DATA frame sits half written in the
+    // codec with a remainder still to come: the bystander's body must arrive complete
+    v.push(mk(
+        "reset-while-other-stream-in-codec",
+        Cfg::default(),
+        vec![StreamSpec { cancel: Cancel::ClientReset { after_chunks: 1, code: 8 }, ..StreamSpec::new(m(&[5, 5]), m(&[4])) }, StreamSpec::new(m(&[20000]), m(&[2]))],
+    ));
+    v.push(mk(
+        "server-reset-while-other-stream-in-codec",
+        Cfg { vectored: true, ..Cfg::default() },
+        vec![StreamSpec { cancel: Cancel::ServerReset { after_chunks: 1, code: 2 }, ..StreamSpec::new(m(&[3]), m(&[5, 5])) }, StreamSpec::new(m(&[2]), m(&[20000]))],
+    ));
+    // the same with a cheap body: a 2000-octet window cuts a 3000-octet chunk into a chained frame and a remainder
+    v.push(mk(
+        "reset-while-split-frame-in-codec",
+        Cfg { s_stream_window: Some(2000), ..Cfg::default() },
+        vec![StreamSpec { cancel: Cancel::ClientReset { after_chunks: 1, code: 8 }, ..StreamSpec::new(m(&[5, 5]), m(&[4])) }, StreamSpec::new(m(&[3000]), m(&[2]))],
+    ));
     if !quick {
         v.push(mk(
             "big-headers-40k-window7",
@@ -478,6 +496,28 @@ pub fn run_t1_property(
             reports[i] = Some(rep);
         }
     }
+    // pass C: whatever budget is left goes, cheapest first, to the scenarios that have not reached the bound yet - each
+    // may use all that remains (the explorer still refuses a level it cannot finish)
+    if max_dev > 1 {
+        let mut order: Vec<usize> = (0..n).filter(|&i| reports[i].as_ref().map(|r| r.completed_level.unwrap_or(0) < max_dev && r.completed_level.is_some()).unwrap_or(false)).collect();
+        order.sort_by_key(|&i| {
+            let r = reports[i].as_ref().unwrap();
+            let l = r.execs_per_level.last().copied().unwrap_or(0) as f64;
+            (l * l * (r.wall_s / r.agg.execs.max(1) as f64) * 1e6) as u64
+        });
+        for i in order {
+            let left = ctx.remaining();
+            if left < 2.0 {
+                break;
+            }
+            let deadline = std::time::Instant::now() + std::time::Duration::from_secs_f64(left);
+            let h = T1Harness { prop, sc: &scs[i], sc_index: i, pol: pol.clone(), judge };
+            let rep = explore(&h, &ExploreCfg::new(max_dev, deadline, false));
+            if rep.completed_level >= reports[i].as_ref().unwrap().completed_level {
+                reports[i] = Some(rep);
+            }
+        }
+    }
     for (i, sc) in scs.iter().enumerate() {
         let rep = reports[i].take().unwrap();
         let h = T1Harness { prop, sc, sc_index: i, pol: pol.clone(), judge };
@@ -524,7 +564,30 @@ pub fn run_t1_property(
     out
 }
 
+/// The property's judge over the systematically generated scenarios (`gen.rs`: every pair - thorough: every triple - of
+/// scenario dimension values), deviation bound 1 (quick) / 2 (thorough) as far as the remaining budget allows.
+pub fn generated_pass(ctx: &Ctx, prop: &'static str, judge: fn(&T1Harness, &mut T1, RunEnd) -> Vec<(String, String, String)>, pol: [IoPolicy; 2]) -> Outcome {
+    let quick = ctx.tier.is_quick();
+    let t = if quick { 2 } else { 3 };
+    let scs = crate::gen::generated(t);
+    let mut o = run_t1_property(ctx, prop, &scs, judge, if quick { 1 } else { 2 }, pol, &[]);
+    if let Some(h) = o.coverage.get_mut("harnesses").and_then(|v| v.as_object_mut()) {
+        if let Some(x) = h.remove("t1-scenarios") {
+            h.insert(format!("t1-generated-scenarios ({}-wise covering array over {:?})", t, crate::gen::dims_description()), x);
+        }
+    }
+    o.coverage.remove("mechanism_counters");
+    o.coverage.remove("samples");
+    o
+}
+
 pub fn run(ctx: &Ctx) -> Outcome {
+    let mut out = with_budget_scale(0.85, || run_main(ctx));
+    out.absorb(generated_pass(ctx, "C01", judge_c01, full_policy()));
+    out
+}
+
+fn run_main(ctx: &Ctx) -> Outcome {
     let scs = scenarios(ctx.tier.is_quick());
     // determinism self-check: one representative trace per scenario, twice
     let mut out_err = vec![];
@@ -546,6 +609,19 @@ pub fn run(ctx: &Ctx) -> Outcome {
 }
 
 pub fn replay(v: &Value, scs: &[Scenario], prop: &'static str, judge: fn(&T1Harness, &mut T1, RunEnd) -> Vec<(String, String, String)>, pol: [IoPolicy; 2]) -> bool {
+    // generated scenarios are identified by their name, which spells the covering-array row
+    if let Some(name) = v["scenario_name"].as_str() {
+        if let Some(digits) = name.strip_prefix("gen-") {
+            let row: Vec<usize> = digits.chars().filter_map(|c| c.to_digit(10).map(|d| d as usize)).collect();
+            if row.len() == 13 && !scs.iter().any(|s| s.name == name) {
+                let sc = crate::gen::scenario_of(&row);
+                let mut v2 = v.clone();
+                v2["scenario"] = json!(0);
+                v2["scenario_name"] = json!("resolved");
+                return replay(&v2, &[sc], prop, judge, pol);
+            }
+        }
+    }
     let i = v["scenario"].as_u64().unwrap() as usize;
     let choices: Vec<u32> = v["choices"].as_array().unwrap().iter().map(|x| x.as_u64().unwrap() as u32).collect();
     let sc = &scs[i];
